@@ -21,6 +21,13 @@ Driver for C35. One case = one of four kinds (first line `kind <k>`):
       judge: CalculateChecksumsStreaming under the named read schedule = one-shot stdlib hashing
              of the bytes the schedule delivered, for all six algorithms, and the byte count.
       tie:   when <data> is shipped, the model CRCs of it = the one-shot CRCs.
+  kind combconc   goroutines <n> / cg <goroutine> <alg> <|a|> <|b|> <crcA> <crcB> <combined> <stdlib crc of a++b | ->
+      the real Combine* called from <n> goroutines AT ONCE on independent inputs (re-entrancy).
+      judge: combined = CRC of the concatenation; for arbitrary registers (`-`) the value the
+             model computes for the same arguments — the implementation must be a function of
+             its arguments.   tie: model `combineCrc*` = Go's result.
+  kind streamconc goroutines <n> / sc <goroutine> <size> <sched> <7 streaming fields> <7 one-shot fields>
+      CalculateChecksumsStreaming from <n> goroutines at once.  judge: as `stream`.
   A line `panic <text>` / `error <text>` reports a panic / unexpected error of the code under test.
 -/
 import Pithos.Util.Proto
@@ -171,6 +178,48 @@ def judgeCase (_k : Nat) (lines : List String) : Verdict := Id.run do
       if !(toks.any fun t => t.head? == some "panic" || t.head? == some "error") then
         div := div ++ ["missing-stream-or-oneshot-line"]
     stats := stats ++ [("stream_runs", 1)]
+  | "combconc" =>
+    -- the real Combine* called from several goroutines at once on independent inputs
+    let mut seen := 0
+    for t in toks do
+      match t with
+      | ["cg", g, alg, la, lb, ca, cb, comb, whole] =>
+        seen := seen + 1
+        let lbn := lb.toNat!
+        if lbn ≥ 1 then nontrivial := true
+        match unhex ca, unhex cb with
+        | some cab, some cbb =>
+          let mc := optHex (modelCombine alg cab cbb lbn)
+          if whole == "-" then
+            -- arbitrary registers: only the model says what the function value is
+            if mc ≠ comb then
+              vio := vio ++ [(s!"C35.concurrent-combine-not-a-function-of-its-arguments.{alg}",
+                s!"goroutine={g},lenB={lb},crcA={ca},crcB={cb}:combined={comb},model={mc}")]
+          else
+            if comb ≠ whole then
+              vio := vio ++ [(s!"C35.concurrent-combine-ne-crc-of-concat.{alg}",
+                s!"goroutine={g},lenA={la},lenB={lb},crcA={ca},crcB={cb}:combined={comb},stdlib-crc(a++b)={whole},model={mc}")]
+            else if mc ≠ comb then div := div ++ [s!"{alg}:combine:model={mc},go={comb}"]
+        | _, _ => div := div ++ ["unparsable-crc"]
+      | _ => pure ()
+    if seen == 0 then div := div ++ ["no-cg-lines"]
+    stats := stats ++ [("concurrent_combine_calls", seen)]
+  | "streamconc" =>
+    let mut seen := 0
+    for t in toks do
+      match t with
+      | "sc" :: g :: size :: sched :: rest =>
+        if rest.length ≠ 14 then div := div ++ ["sc-line-arity"]
+        else
+          seen := seen + 1
+          if size.toNat! ≥ 1 then nontrivial := true
+          for (name, (a, b)) in algNames.zip ((rest.take 7).zip (rest.drop 7)) do
+            if a ≠ b then
+              vio := vio ++ [(s!"C35.concurrent-streaming-ne-oneshot.{name}",
+                s!"goroutine={g},size={size},sched={sched}:streaming={a},oneshot={b}")]
+      | _ => pure ()
+    if seen == 0 && !(toks.any fun t => t.head? == some "error" || t.head? == some "panic") then div := div ++ ["no-sc-lines"]
+    stats := stats ++ [("concurrent_stream_runs", seen)]
   | _ => div := div ++ [s!"unknown-kind-{kind}"]
   return {
     diverge := div, violations := vio, nontrivial := nontrivial,
